@@ -11,6 +11,10 @@
 //	reset chain nv=<N> own=<k> seed=<s> maxsize=<M>  -> ok    (validators 0..k-1 are enabled in the generator)
 //	ext <j>                                     -> h=<height>      (validator j, another node's generator, extends the tip)
 //	forge <i> <pool>                            -> forged h= mhg= info=<H>/<G> sel= acc=1   (real forge for own validator i, block processed)
+//	forge <i> <pool> vc=<w0-w1-..>[/<pc>/<ct>]  -> forged ... acc=1          (as forge; the application answers AfterTransactionsExecute of this
+//	                                                                          block with new BFT weights w_j of validators 0..N-1 and thresholds
+//	                                                                          pc/ct, default floor(2W/3)+1 - while the generator dry-runs the block
+//	                                                                          and when the node executes it)
 //	forgedrop <i> <pool>                        -> forged ... acc=0          (block handed on but lost)
 //	forgecrash <i> <pool>                       -> forged ... acc=0          (process dies at the hand-off; generator DB loses unsynced data; restart)
 //	del <k>                                     -> h=<height>      (Executer.deleteBlock on the tip, k times)
@@ -34,6 +38,7 @@ import (
 	"github.com/LiskHQ/lisk-engine/pkg/blockchain"
 	"github.com/LiskHQ/lisk-engine/pkg/consensus/contradiction"
 	"github.com/LiskHQ/lisk-engine/pkg/generator"
+	"github.com/LiskHQ/lisk-engine/pkg/labi"
 
 	"verifharness/corr"
 	"verifharness/node"
@@ -56,6 +61,7 @@ var (
 	cntImpliesUnset    int64
 	cntImpliesChecked  int64
 	cntCrashChecks     int64
+	cntForgedVChange   int64
 )
 
 // ---------------------------------------------------------------------------------------------
@@ -439,6 +445,59 @@ func genChainLive(rng *rand.Rand, seed int) corr.Case {
 	return corr.Case{Ops: g.ops, Tag: "chain-live"}
 }
 
+// validator-change chains: the application answers AfterTransactionsExecute of some generated blocks
+// with new BFT weights and / or thresholds (what a PoS module does at the end of a round). The
+// generated block must carry the validatorsHash of the parameters that are valid from the next
+// height on, i.e. the changed ones - the node computes exactly that when it executes the block.
+// All validators keep a positive weight, so the slot order never changes; no deletes (the
+// changed thresholds move finality).
+func genChainVChange(rng *rand.Rand, seed int) corr.Case {
+	g := &chainGen{rng: rng, nv: 4, own: 1 + rng.Intn(3), maxSize: []int{500, 1200, 15 * 1024}[rng.Intn(3)]}
+	g.reset(seed)
+	weights := []int{1, 1, 1, 1}
+	n := 6 + rng.Intn(14)
+	for cursor := 1; cursor <= n; cursor++ {
+		v := cursor % g.nv
+		if v < g.own {
+			op := fmt.Sprintf("forge %d %s", v, g.pool())
+			if rng.Intn(100) < 45 {
+				total := 0
+				switch rng.Intn(4) {
+				case 0: // thresholds only (same weights)
+				default:
+					for j := range weights {
+						if rng.Intn(2) == 0 {
+							weights[j] = 1 + rng.Intn(4)
+						}
+					}
+				}
+				ws := make([]string, len(weights))
+				for j, w := range weights {
+					ws[j] = strconv.Itoa(w)
+					total += w
+				}
+				op += " vc=" + strings.Join(ws, "-")
+				if rng.Intn(3) == 0 {
+					// explicit thresholds anywhere in the admissible range [floor(W/3)+1, W]
+					lo := total/3 + 1
+					op += fmt.Sprintf("/%d/%d", lo+rng.Intn(total-lo+1), lo+rng.Intn(total-lo+1))
+				}
+			}
+			g.ops = append(g.ops, op)
+			g.height++
+		} else if rng.Intn(10) != 0 {
+			g.ext(v)
+		}
+		switch r := rng.Intn(100); {
+		case r < 25:
+			g.ops = append(g.ops, fmt.Sprintf("certify %d", (1<<g.nv)-1))
+		case r < 33:
+			g.sprinkle()
+		}
+	}
+	return corr.Case{Ops: g.ops, Tag: "chain-vchange"}
+}
+
 func (prop) Generate(rng *rand.Rand, tier string) []corr.Case {
 	nSel, nTie, nQuiet, nSwitch, nLive := 700, 300, 120, 80, 60
 	if tier == "thorough" {
@@ -466,6 +525,19 @@ func (prop) Generate(rng *rand.Rand, tier string) []corr.Case {
 	}
 	for i := 0; i < nLive; i++ {
 		cases = append(cases, genChainLive(rng, 1+rng.Intn(50)))
+	}
+	// (generated last: the cases above keep their random streams)
+	nVC := 60
+	if tier == "thorough" {
+		nVC = 1200
+	}
+	// a generated block whose AfterTransactionsExecute answers with new weights, then one with new thresholds only
+	cases = append(cases, corr.Case{Tag: "chain-vchange", Ops: []string{
+		"reset chain nv=4 own=2 seed=7 maxsize=15360",
+		"forge 1 - vc=3-1-1-1", "ext 2", "ext 3", "forge 0 - vc=3-1-1-1/3/6", "forge 1 -", "info 1",
+	}})
+	for i := 0; i < nVC; i++ {
+		cases = append(cases, genChainVChange(rng, 1+rng.Intn(50)))
 	}
 	return cases
 }
@@ -798,7 +870,51 @@ func (x *runner) checkInfosAfterRestart(kind string) {
 	}
 }
 
+// parseVChange parses `vc=<w0-w1-..>[/<pc>/<ct>]`: new BFT weights of validators 0..N-1 (all
+// positive) and the thresholds (default floor(2W/3)+1).
+func (x *runner) parseVChange(tok string) (*node.ValidatorChange, bool) {
+	if !strings.HasPrefix(tok, "vc=") {
+		return nil, false
+	}
+	parts := strings.Split(tok[3:], "/")
+	if len(parts) != 1 && len(parts) != 3 {
+		return nil, false
+	}
+	ws := strings.Split(parts[0], "-")
+	if len(ws) != x.r.n.Cfg.NumValidators {
+		return nil, false
+	}
+	var next []*labi.Validator
+	total := uint64(0)
+	for j, t := range ws {
+		wt, err := strconv.ParseUint(t, 10, 32)
+		if err != nil || wt == 0 {
+			return nil, false
+		}
+		next = append(next, x.r.n.Validators[j].Labi(wt))
+		total += wt
+	}
+	vc := &node.ValidatorChange{Validators: next, PrecommitThreshold: node.DefaultThreshold(total), CertificateThreshold: node.DefaultThreshold(total)}
+	if len(parts) == 3 {
+		pc, err1 := strconv.ParseUint(parts[1], 10, 32)
+		ct, err2 := strconv.ParseUint(parts[2], 10, 32)
+		if err1 != nil || err2 != nil {
+			return nil, false
+		}
+		vc.PrecommitThreshold, vc.CertificateThreshold = pc, ct
+	}
+	return vc, true
+}
+
 func (x *runner) opForge(w []string) string {
+	var vc *node.ValidatorChange
+	if len(w) == 4 && w[0] == "forge" {
+		var ok bool
+		if vc, ok = x.parseVChange(w[3]); !ok {
+			return "bad-op"
+		}
+		w = w[:3]
+	}
 	if len(w) != 3 {
 		return "bad-op"
 	}
@@ -819,7 +935,21 @@ func (x *runner) opForge(w []string) string {
 		return "no-slot"
 	}
 	// reference block of the harness' own builder for the same slot and generator (differential check)
-	ref, _ := r.n.BuildBlock(node.BlockOpts{Generator: v, MaxHeightGenerated: node.U32(x.maxGen[i])})
+	refOpts := node.BlockOpts{Generator: v, MaxHeightGenerated: node.U32(x.maxGen[i]), ValidatorChange: vc}
+	ref, _ := r.n.BuildBlock(refOpts)
+	// what the application inserts into the block: the script that makes it answer
+	// AfterTransactionsExecute of this block with the validator change
+	r.abi.setInsertAssets(nil)
+	if vc != nil {
+		asset, err := refOpts.ScriptAsset()
+		if err != nil || asset == nil {
+			x.fail("c15-harness", "script asset: %v", err)
+			return "build-error"
+		}
+		r.abi.setInsertAssets([]*blockchain.BlockAsset{asset})
+		defer r.abi.setInsertAssets(nil)
+		atomic.AddInt64(&cntForgedVChange, 1)
+	}
 	var atHandoff func()
 	if w[0] == "forgecrash" {
 		atHandoff = func() { r.genFS.SetIgnoreSyncs(true) } // nothing after the hand-off reaches the disk
@@ -1020,6 +1150,9 @@ func (prop) Classify(c corr.Case, out []string) string {
 		case "del":
 			feats["del"] = true
 		case "forge":
+			if len(w) == 4 {
+				feats["vchange"] = true
+			}
 			if i < len(out) {
 				h, ok1 := kv(strings.Fields(out[i]), "h")
 				g, ok2 := kv(strings.Fields(out[i]), "mhg")
